@@ -3,6 +3,7 @@
 //! role 0 = parker: cfg per actor in ops[0] = Op(kind, rounds, long_timeout?)
 //!   kind 0: coroutine::park / park_timeout(1h) (coroutine only)
 //!   kind 1: fresh Blocker per round, Blocker::park(None | Some(1h)) (thread or coroutine)
+//! cfg[0] = number of trivial coroutines spawned and joined before the program (run queue offset)
 //! role 1 = unparker: ops[0] = Op(U, parker index, 0), ops[1..] = per round Op(N, count, delay ns)
 use crate::case::{Actor, Case, Op, Outcome};
 use crate::gen::{self, GenCfg};
@@ -47,6 +48,13 @@ pub fn run(case: &Case) -> Outcome {
         .map(|a| format!("{}/{}", if a.role == 0 { "parker" } else { "unparker" }, ctx_name(if a.role == 0 && a.ops[0].0 == K_CO { CO } else { a.ctx })))
         .collect();
     let states = States::install(desc, opname);
+    // cfg[0]: that many trivial coroutines are spawned and joined first, so that the global
+    // run queues (64-slot block queues) stand at a generated position when the program
+    // starts - two wake-ups from threads then straddle a block boundary now and then
+    for _ in 0..case.cfg(0).clamp(0, 200) {
+        let h = unsafe { may::coroutine::spawn(|| {}) };
+        let _ = h.join();
+    }
     let slots: Arc<Vec<Slot>> = Arc::new(
         case.actors
             .iter()
@@ -218,10 +226,11 @@ pub fn strategy(g: &GenCfg) -> BoxedStrategy<Case> {
                         (Just(t), 0u8..2, proptest::collection::vec((1u32..=3, prop_oneof![3 => Just(0u32), 2 => 0u32..2_000, 1 => 0u32..200_000]), r))
                     })
                     .collect();
-                (Just(parkers), plans, gen::config(&g3), gen::schedule(&g3, false))
+                let offset = prop_oneof![2 => Just(0i64), 1 => 0i64..200, 3 => (1i64..4, 0i64..12).prop_map(|(b, o)| b * 64 - 12 + o)];
+                (Just(parkers), plans, gen::config(&g3), gen::schedule(&g3, false), offset)
             })
         })
-        .prop_map(|(mut actors, plans, (workers, pool, feat), sched)| {
+        .prop_map(|(mut actors, plans, (workers, pool, feat), sched, offset)| {
             for (t, ctx, per_round) in plans {
                 let mut ops = vec![Op(U, t as u32, 0)];
                 for (count, delay) in per_round {
@@ -229,7 +238,7 @@ pub fn strategy(g: &GenCfg) -> BoxedStrategy<Case> {
                 }
                 actors.push(Actor { ctx, role: 1, ops });
             }
-            Case { fam: "park".into(), workers, pool, feat, cfg: vec![], actors, sched, weak: 0 }
+            Case { fam: "park".into(), workers, pool, feat, cfg: vec![offset], actors, sched, weak: 0 }
         })
         .boxed()
 }
